@@ -314,6 +314,23 @@ def gen_dedup_batch(ctx):
     sentinel = rng.random() < 0.8
     enc, mask = encoding.encode_batch(plist, include_sentinel=sentinel)
     _note_encode_batch(ctx, plist, sentinel, enc, mask)
+    if rng.random() < 0.3:
+        # zero-extension families: token 0 is a real token (an empty square) AND the padding value,
+        # so [t1..tk] and [t1..tk,0,..,0] under a longer mask are DIFFERENT positions (e.g. a 3x3
+        # position with 15/0 reserves and the 4x4 position with the same first squares); their
+        # keys must stay apart
+        rows = [enc[i, : int(mask[i].sum())].tolist() for i in range(enc.shape[0])]
+        fam = []
+        for r in rng.sample(rows, min(len(rows), rng.choice([1, 2]))):
+            for k in rng.sample([1, 2, 3, 7], rng.choice([1, 2])):
+                fam += [r + [0] * k] * rng.choice([1, 1, 2])
+        rows += fam
+        rng.shuffle(rows)
+        w = max(len(r) for r in rows)
+        enc = torch.tensor([r + [0] * (w - len(r)) for r in rows], dtype=enc.dtype)
+        mask = torch.tensor([[True] * len(r) + [False] * (w - len(r)) for r in rows], dtype=torch.bool)
+        idx = list(range(len(rows)))
+        style += "+zeroext"
     extra = rng.choice([0, 0, 1, 3])
     if extra:
         enc = torch.cat([enc, torch.zeros((enc.shape[0], extra), dtype=enc.dtype)], dim=1)
@@ -749,6 +766,27 @@ def tie(ctx):
     if meta:
         ctx.sample({"encode_games": meta[0][0][:400], "impl": impl[0][:300]})
 
+    # --- the same Transcript objects encoded twice, changed in between (a game exported while it
+    #     is still being played, search probabilities revised): the batch says what the transcript
+    #     says NOW
+    lines, cases = [], []
+    for text, kinds, logs in meta[:: (2 if ctx.thorough else 3)]:
+        before = earlier_state(ctx, logs)
+        try:
+            io1, io2, _ = regrown_case(before, text)
+        except Exception as e:
+            io1 = io2 = "crash " + type(e).__name__
+        lines += ["batch encodegames max " + before, "batch encodegames max " + text]
+        cases.append((before, text, io1, io2))
+        ctx.count("encode_games:re-encoded-after-change")
+    model = driver.run_lines(lines)
+    for i, (before, text, io1, io2) in enumerate(cases):
+        ctx.evaluated(2)
+        if io1 != model[2 * i]:
+            divs.append(Divergence("corr.batches", {"kind": "encodegames", "games": before}, io1, model[2 * i]))
+        if io2 != model[2 * i + 1]:
+            divs.append(Divergence("corr.batches", {"kind": "encodegames-regrown", "before": before, "games": text}, io2, model[2 * i + 1]))
+
     ctx.note("small encode_games lists: %.1fs" % (_time.time() - _t0))
     _t0 = _time.time()
     # --- dedup_batch
@@ -1069,6 +1107,51 @@ def encodegames_case(text):
     return io, check_encodegames(text, io), logs
 
 
+def _load_games(text):
+    toks = text.split(" ")
+    n, k, logs = int(toks[0]), 1, []
+    for _ in range(n):
+        t, k = parse_transcript(toks, k)
+        logs.append(t)
+    return logs
+
+
+def regrown_case(before, after):
+    """encode the transcripts of `before`; change THE SAME Transcript objects (in place, as a game
+    that is still being played does) until they read `after`; encode again.  Returns
+    (impl line before, impl line after, clauses failing on the second result)."""
+    logs = _load_games(before)
+    io1 = run_encode_games(logs)
+    new = _load_games(after)
+    for t, u in zip(logs, new):
+        t.positions[:] = u.positions
+        t.moves[:] = u.moves
+        t.probs[:] = u.probs
+        t.values[:] = u.values
+        t.result = u.result
+    io2 = run_encode_games(logs)
+    return io1, io2, check_encodegames(after, io2)
+
+
+def earlier_state(ctx, logs):
+    """text of an earlier state of the same games: each cut after a random ply, no result yet,
+    sometimes with other search probabilities for a recorded ply"""
+    from tak import self_play
+
+    rng = ctx.rng
+    out = []
+    for t in logs:
+        k = rng.randrange(1, len(t.positions) + 1)
+        b = self_play.Transcript()
+        b.positions += t.positions[:k]
+        b.moves += t.moves[:k]
+        b.probs += [dyadic_probs(rng, len(q)) if rng.random() < 0.3 else q for q in t.probs[:k]]
+        b.values += t.values[:k]
+        b.result = None if rng.random() < 0.7 else t.result
+        out.append(b)
+    return "%d %s" % (len(out), " ".join(transcript_str(b) for b in out))
+
+
 def shrink_games(text, key):
     toks = text.split(" ")
     n, k, logs = int(toks[0]), 1, []
@@ -1235,6 +1318,16 @@ def search(ctx, divergences, broken):
                 keys = compact_case(inp["base"], parse_occ(inp["occ"]), inp["shapes"])[1]
             else:
                 keys = check_encodegames(inp["games"], d.impl)
+                if inp["kind"] == "encodegames-regrown" and keys and not encodegames_case(inp["games"])[1]:
+                    # fresh Transcript objects holding the same content are encoded correctly: the
+                    # failure needs the earlier encode of the same objects -> replay = both states
+                    d.explained = True
+                    key = keys[0] + "-after-transcript-changed"
+                    if key not in seen:
+                        seen.add(key)
+                        vs.append(Violation(key, "encode_games on Transcript objects that were encoded before and have changed since (then [%s…], now [%s…]) returns [%s…]: clause(s) %s of C12 fail; fresh objects with the same content are encoded correctly" % (
+                            inp["before"][:200], inp["games"][:200], d.impl[:200], ",".join(keys)), {"kind": "encodegames-regrown", "before": inp["before"], "games": inp["games"]}))
+                    continue
         except Exception as e:
             ctx.note("search: predicate evaluation failed: %r" % (e,))
             continue
@@ -1289,6 +1382,10 @@ def replay(ctx, data):
             vs.append(Violation(MUTATED, "the batch returned by call %d (%s) is changed by later calls: tensor '%s' no longer equals its value at return time%s" % (
                 victim, r["calls"][victim]["op"], name, (" and now fails clause(s) %s" % ",".join(now)) if now else ""), r))
             break
+    elif r["kind"] == "encodegames-regrown":
+        io1, io2, keys = regrown_case(r["before"], r["games"])
+        for k in keys[:1]:
+            vs.append(Violation(k + "-after-transcript-changed", "encode_games after the same Transcript objects changed returns [%s…]: clause(s) %s fail" % (io2[:300], ",".join(keys)), r))
     elif r["kind"] == "dedup-compact":
         occ = parse_occ(r["occ"])
         io, keys = compact_case(r["base"], occ, r["shapes"])
